@@ -1,3 +1,4 @@
+import MdVerif.Proofs.TextRecordLemmas
 import MdVerif.Proofs.DcdLemmas
 import MdVerif.Proofs.XdrLemmas
 import MdVerif.Model.Formats
@@ -265,6 +266,67 @@ theorem c01_spaced_roundtrip (w p : Nat) (xs : List Rat) : parseTokens (renderSp
     rw [fmtFixed_zero] at this
     simp only [List.map_cons, List.mapM_cons, this, ih]
     rfl
+
+/-! ### whole records: the PDB ATOM line and the .gro atom line (Model/TextRecords.lean) -/
+
+/-- **the ATOM record is 80 columns wide** whenever it can be written (the coordinates fit `_format_83`, the B-factor fits '%5.2f'): for every
+serial number, every atom / residue / segment name, every residue number — what the writer asserts before printing the line -/
+theorem c01_pdb_line_width (a : PdbAtom) (l : List Char) (h : pdbAtomLine a = some l) (hb : (fmtFixed 5 2 a.bfactor).length ≤ 5) :
+    l.length = 80 := by
+  unfold pdbAtomLine at h
+  cases hx : pdb83 a.x with
+  | none => simp [hx] at h
+  | some fx =>
+    cases hy : pdb83 a.y with
+    | none => simp [hx, hy] at h
+    | some fy =>
+      cases hz : pdb83 a.z with
+      | none => simp [hx, hy, hz] at h
+      | some fz =>
+        simp only [hx, hy, hz, Option.bind_eq_bind, Option.bind_some, Option.pure_def, Option.some.injEq] at h
+        rw [← h]
+        have e1 := fmtInt_serial_length a.serial
+        have e2 := padRight_length 4 _ (pdbAtomName_length a.name a.symbol.length)
+        have e3 := padLeft_length 3 (a.resName.take 3) (by simp)
+        have e4 := fmtInt_resseq_length a.resSeq
+        have e5 := c01_pdb83_width a.x fx hx
+        have e6 := c01_pdb83_width a.y fy hy
+        have e7 := c01_pdb83_width a.z fz hz
+        have e8 := padLeft_length 5 _ hb
+        have e9 := padRight_length 4 (a.segId.take 4) (by simp)
+        have e10 := padLeft_length 2 _ (takeLast_length 2 (if a.symbol.isEmpty then [' '] else a.symbol))
+        simp only [List.length_append, e1, e2, e3, e4, e5, e6, e7, e8, e9, e10, List.length_cons, List.length_nil, String.length_toList]
+        rfl
+
+/-- the residue-number field: numbers up to 9999 and down to -999 are printed as they are -/
+theorem c01_resseq_kept (r : Int) (h1 : -1000 < r) (h2 : r < 10000) : resseqField r = r := by
+  unfold resseqField
+  split
+  · exact Int.emod_eq_of_lt (by omega) h2
+  · have : (-r) % 1000 = -r := Int.emod_eq_of_lt (by omega) (by omega)
+    omega
+
+/-- **a .gro atom line has 20 + 3(p+5) columns** when the names fit their five columns and the coordinates their fields -/
+theorem c01_gro_line_width (p : Nat) (resSeq : Int) (resName atomName : List Char) (serial : Nat) (x y z : Rat)
+    (hr : -10000 < resSeq) (hn1 : resName.length ≤ 5) (hn2 : atomName.length ≤ 5)
+    (hx : Fits (p + 5) p x) (hy : Fits (p + 5) p y) (hz : Fits (p + 5) p z) :
+    (groAtomLine p resSeq resName atomName serial x y z).length = 20 + 3 * (p + 5) := by
+  have e1 : (fmtInt 5 (if 100000 ≤ resSeq then resSeq % 100000 else resSeq)).length = 5 := by
+    apply padLeft_length
+    split
+    · apply intBody_length_nonneg _ 5 (by decide) (Int.emod_nonneg _ (by decide))
+      have := Int.emod_lt_of_pos resSeq (show (0 : Int) < 100000 by decide); omega
+    · by_cases h0 : 0 ≤ resSeq
+      · exact intBody_length_nonneg _ 5 (by decide) h0 (by omega)
+      · have := intBody_length_neg resSeq 4 (by decide) (by omega) (by omega); omega
+  have e2 := padRight_length 5 resName hn1
+  have e3 := padLeft_length 5 atomName hn2
+  have e4 := fmtInt_serial_length serial
+  have e5 := fits_length (p + 5) p x hx
+  have e6 := fits_length (p + 5) p y hy
+  have e7 := fits_length (p + 5) p z hz
+  simp only [groAtomLine, groField, List.length_append, e1, e2, e3, e4, e5, e6, e7]
+  omega
 
 end MdVerif.Txt
 
